@@ -21,8 +21,9 @@
 //!                  were answered, then d ms, then end the connection: by dropping the Multiplexor
 //!                  (WebSocket Close handshake) / by killing the connection task (TCP closed, no Close)
 //!   healthy        as before, never closed; further attempts are watched for `wait` ms (terminal)
-//!   down           the listening socket is closed: further attempts are refused by the operating system
-//!                  and cannot be observed; the client's result is awaited for `wait` ms (terminal)
+//!   down           the listening socket stops listening (shutdown; it stays bound so that no other process
+//!                  can get the port): further attempts are refused by the operating system and cannot be
+//!                  observed; the client's result is awaited for `wait` ms (terminal)
 //! `open`: a local connection to the client's TCP listener is made at the step's characteristic moment
 //! (refuse/rst/bad: right after the server's action; stall: right after the attempt arrived; mute /
 //! close_* / healthy: right after the handshake; down: right after the listener was closed); it sends an
@@ -200,6 +201,8 @@ struct Sim {
     log: Log,
     lport: u16,
     listener: Option<TcpListener>,
+    /// the fake server's socket after `down`: not listening any more, still bound
+    held: Option<TcpListener>,
     prev: Option<(usize, Drain)>,
     done: watch::Receiver<Finished>,
     locals: Vec<(u64, Option<JoinHandle<(bool, u64)>>)>,
@@ -208,6 +211,17 @@ struct Sim {
 }
 
 impl Sim {
+    /// stop listening, keep the port: connections are refused (RST) from now on
+    fn go_down(&mut self) {
+        if let Some(l) = self.listener.take() {
+            if socket2::SockRef::from(&l).shutdown(std::net::Shutdown::Read).is_err() {
+                // cannot happen on Linux; closing the socket has the same effect for the client
+                return;
+            }
+            self.held = Some(l);
+        }
+    }
+
     fn client_ended(&self) -> bool {
         self.done.borrow().is_some()
     }
@@ -355,6 +369,7 @@ async fn script_main(script: &Value, log: Log) {
         log: log.clone(),
         lport,
         listener: Some(server),
+        held: None,
         prev: None,
         done: done_rx,
         locals: Vec::new(),
@@ -362,7 +377,7 @@ async fn script_main(script: &Value, log: Log) {
         listen_checked: false,
     };
     if first_down {
-        sim.listener = None;
+        sim.go_down();
     }
     let clog = log.clone();
     let client = tokio::spawn(async move {
@@ -392,7 +407,7 @@ async fn script_main(script: &Value, log: Log) {
         let step_wait = step["wait"].as_u64().expect("wait");
         last_wait = step_wait;
         if beh == "down" {
-            sim.listener = None;
+            sim.go_down();
             log.put(json!({"ev": "down", "n": n, "t": log.now()}));
             if open {
                 sim.local_open(n, false).await;
